@@ -199,8 +199,15 @@ theorem bake_eq (env : Env B) (accept ae : Option Str) (params : Params) (d : Bo
         ⟨statusOK, [(contentTypeName, contentType (chooseEncoder accept).1)], plainBody env accept params, true⟩ := by
   have h1 : Generated.Http.compressNeedsEnabled = true := by decide
   have h2 : Generated.Http.compressNeedsAccepted = true := by decide
+  -- the values of name[] reach `restricted_registry` as they are: no splitting on ',' or anything else
+  have h3 : ∀ o : Option (List PyKey), o.map restrictionNames = o := by
+    have hs : Generated.Http.nameValueSplit = [] := by decide
+    intro o
+    cases o with
+    | none => rfl
+    | some vs => simp only [Option.map_some, restrictionNames, hs]
   unfold bakeOutput plainBody
-  simp only [choose_content_type, h1, h2, Bool.not_true, Bool.false_or]
+  simp only [choose_content_type, h1, h2, h3, Bool.not_true, Bool.false_or]
   split <;> rfl
 
 private theorem ce_name_ne : contentEncoding.1 ≠ contentTypeName := by decide
